@@ -40,7 +40,13 @@ theorem stepClient_cases' {P : G → Prop} (g : G) (c : Client) (f : Fault)
       P (finishCreate (afterCommit g r st f key rev (some val) .absent) c key val rev r))
     (hCreateOver : ∀ rev old key val r st, c.pc = .createOver rev old → c.kind.kv = (key, val) →
       doCommit g.cfg g.store [BOp.cas (idxKey key) (be8 rev) old, BOp.put (encode key rev) val] f = (r, st) →
-      P (finishCreate (afterCommit g r st f key rev (some val) .absent) c key val rev r))
+      P (match r with
+         | .conflict _ _ => (afterCommit g r st f key rev (some val) .absent).setClient { c with pc := .createRecheck rev }
+         | r' => finishCreate (afterCommit g r st f key rev (some val) .absent) c key val rev r'))
+    (hCreateRecheck : ∀ rev key val, c.pc = .createRecheck rev → c.kind.kv = (key, val) →
+      P (match g.store.get (idxKey key) with
+         | some _ => finishCreate g c key val rev (.conflict none none)
+         | none => g.setClient { c with pc := .createRetry rev }))
     (hUpdateCommit : ∀ rev key val exp r st, c.pc = .updateCommit rev → c.kind = .update key val exp →
       doCommit g.cfg g.store [BOp.cas (idxKey key) (be8 rev) (be8 exp), BOp.put (encode key rev) val] f = (r, st) →
       P (match r with
@@ -105,6 +111,7 @@ theorem stepClient_cases' {P : G → Prop} (g : G) (c : Client) (f : Fault)
       obtain ⟨r, st⟩ := p
       have hL := hCreateOver _ _ _ _ r st ‹_› rfl hdc
       cases r <;> simpa only [afterCommit] using hL
+  · cases kind <;> exact hCreateRecheck _ _ _ ‹_› rfl
   · simp only []
     generalize hdc : doCommit g.cfg g.store _ f = p
     obtain ⟨r, st⟩ := p
@@ -130,7 +137,7 @@ def ReqKind.wval : ReqKind → Option Bytes
   | .delete _ _ => none
 
 def Pc.createPath : Pc → Bool
-  | .createCommit _ | .createReread _ | .createRetry _ | .createOver _ _ => true
+  | .createCommit _ | .createReread _ | .createRetry _ | .createOver _ _ | .createRecheck _ => true
   | _ => false
 
 def ValOK (v : Bytes) : Prop := v ≠ [] ∧ v ≠ tombstone
@@ -451,10 +458,29 @@ theorem stepClient_eff {g : G} {c : Client} (f : Fault) (hck : CK c) (hpos : ∀
     have h0 := hpos rev hi
     have hk : key = c.kind.key := by rw [← ReqKind.kv_key, hkv]
     rcases doCommit_cas_cases hdc with ⟨ha, _, hst⟩ | ⟨ha, hst⟩
-    · exact .inl (eff_finishCreate_applied hck hi h0 hkv hcp ha hst)
+    · have := eff_finishCreate_applied hck hi h0 hkv hcp ha hst
+      rcases applied_cases ha with rfl | rfl <;> exact .inl this
     · subst hst
       rw [afterCommit_idle ha]
-      exact .inr (eff_finishCreate_idle (Mid.refl g c) hck val hi h0 hk (not_ok_of_idle ha))
+      have hne := not_ok_of_idle ha
+      split
+      · refine .inr ((Mid.refl g c).set (by simp) (by simp) rfl rfl (hck.setPc (fun _ => hck.path hcp)) ?_)
+        intro r' hr'
+        simp only [Pc.held, Pc.inflight, Option.some.injEq] at hr'
+        subst hr'; exact .inl (Pc.held_of_inflight hi)
+      · exact .inr (eff_finishCreate_idle (Mid.refl g c) hck val hi h0 hk hne)
+  · -- createRecheck
+    intro rev key val hpc hkv
+    have hi : c.pc.inflight = some rev := by rw [hpc]; rfl
+    have hcp : c.pc.createPath = true := by rw [hpc]; rfl
+    have h0 := hpos rev hi
+    have hk : key = c.kind.key := by rw [← ReqKind.kv_key, hkv]
+    split
+    · exact .inr (eff_finishCreate_idle (Mid.refl g c) hck val hi h0 hk (by simp))
+    · refine .inr ((Mid.refl g c).set (by simp) (by simp) rfl rfl (hck.setPc (fun _ => hck.path hcp)) ?_)
+      intro r' hr'
+      simp only [Pc.held, Pc.inflight, Option.some.injEq] at hr'
+      subst hr'; exact .inl (Pc.held_of_inflight hi)
   · -- updateCommit
     intro rev key val exp r st hpc hkind hdc
     have hi : c.pc.inflight = some rev := by rw [hpc]; rfl
